@@ -40,13 +40,14 @@ Failed2(r) ==
       Nm == [t \in Tags |-> <<r.normals[t][1], r.normals[t][2]>>]
       Inc == [f \in 0..(nf - 1) |-> <<r.incL[f + 1], r.incR[f + 1]>>]
       bnd == {f \in 0..(nf - 1) : -1 \in {Inc[f][1], Inc[f][2]}}
+      inRange == \A t \in Tags : T[t] \subseteq 0..(nf - 1)     \* total verdicts: a table that names a face the mesh does not have
   IN {c \in {"C20_2d_counts", "C20_2d_disjoint", "C20_2d_cover", "C20_2d_orientation", "C20_2d_normals", "C20_2d_volume",
              "C20_2d_centers", "DRIFT_tables"} :
         ~ CASE c = "C20_2d_counts" -> r.ncell = nx * ny /\ nf = (nx + 1) * ny + nx * (ny + 1) /\ r.nvol = nx * ny
             [] c = "C20_2d_disjoint" -> Disjoint(T)
-            [] c = "C20_2d_cover" -> Covers(T, bnd)
-            [] c = "C20_2d_orientation" -> OrientationOK(T, O, Inc)
-            [] c = "C20_2d_normals" -> r.normunit = 1 /\ NormalOK(T, O, Nm, nx, ny)
+            [] c = "C20_2d_cover" -> inRange /\ Covers(T, bnd)
+            [] c = "C20_2d_orientation" -> inRange /\ OrientationOK(T, O, Inc)
+            [] c = "C20_2d_normals" -> r.normunit = 1 /\ inRange /\ NormalOK(T, O, Nm, nx, ny)
             [] c = "C20_2d_volume" -> r.vol <= Tol
             [] c = "C20_2d_centers" -> r.centers <= Tol
             [] c = "DRIFT_tables" -> /\ \A t \in Tags : T[t] = IoBc(nx, ny, t)
